@@ -33,12 +33,12 @@ Proof. exact date_not_int. Qed.
 Print Assumptions C18_date_is_text.
 
 (* ------------------------------------------------------------------ WriteCSV *)
-(* every chunk list with one non-zero metric count: no error, and the text is the
+(* every chunk list with one metric count: no error, and the text is the
    header line of the first chunk's keys followed by one line per sample of every
    chunk in order; the cells of a line are the sample's values rendered column by
    column: decimal for every type but datetime *)
 Theorem C18_write : forall c cs n,
-  n <> O -> Forall (fun c' => nmetrics c' = n) (c :: cs) ->
+  Forall (fun c' => nmetrics c' = n) (c :: cs) ->
   write_csv (c :: cs) = (render_records (field_names c :: flat_map chunk_records (c :: cs)), false) /\
   (forall c' i, record_of c' i =
                 map (fun tv => cell (fst tv) (snd tv)) (combine (chunk_types c') (sample_row c' i))) /\
@@ -46,17 +46,17 @@ Theorem C18_write : forall c cs n,
 Proof. exact write_all. Qed.
 Print Assumptions C18_write.
 
-(* a chunk whose metric count differs from the (non-zero) count of the chunks
-   before it: WriteCSV returns an error, and what it has written is exactly what
+(* a chunk whose metric count differs from the count of the chunks before it
+   (zero included: csv.go keeps a headerWritten flag since the repair): WriteCSV returns an error, and what it has written is exactly what
    it writes for the earlier chunks alone (header and all their rows) *)
 Theorem C18_write_error : forall p pre c post n,
-  n <> O -> Forall (fun c' => nmetrics c' = n) (p :: pre) -> nmetrics c <> n ->
+  Forall (fun c' => nmetrics c' = n) (p :: pre) -> nmetrics c <> n ->
   write_csv ((p :: pre) ++ c :: post) = (fst (write_csv (p :: pre)), true).
 Proof. exact write_error. Qed.
 Print Assumptions C18_write_error.
 
 (* ------------------------------------------------------------------ DumpCSV *)
-(* every chunk list whose chunks all have metrics: the files are, in order, one
+(* every chunk list: the files are, in order, one
    per maximal run of equal metric count ([group_by_count]); each file is the
    header of its run's first chunk followed by the rows of the run's chunks.  The
    runs partition the stream in order, are non-empty, have one count each, and
@@ -64,7 +64,6 @@ Print Assumptions C18_write_error.
    chunks whose count differs from the previous chunk's, and the files' rows
    concatenated are all samples in order *)
 Theorem C18_dump : forall cs,
-  Forall (fun c => nmetrics c <> O) cs ->
   dump_csv cs = map file_of (group_by_count cs) /\
   concat (group_by_count cs) = cs /\
   Forall (fun g => g <> [] /\ Forall (fun c => nmetrics c = nmetrics (hd (mkChunk [] 0 None None []) g)) g)
@@ -75,13 +74,14 @@ Proof. exact dump_all. Qed.
 Print Assumptions C18_dump.
 
 (* ------------------------------------------------------------------ round trip *)
-(* every chunk list with one non-zero metric count, no datetime column, int64
-   values, and first-chunk keys that form a record of the class above: WriteCSV
+(* every chunk list with one metric count, no datetime column, int64 values, and
+   first-chunk keys that form a record of the class above (hence at least one
+   metric): WriteCSV
    succeeds, and ConvertFromCSV on its text reaches the end of the input without
    error having handed to the streaming dynamic collector exactly one document
    per sample, in order: the keys of the header with the sample's values as int64 *)
 Theorem C18_roundtrip : forall c cs n,
-  n <> O -> Forall (fun c' => nmetrics c' = n) (c :: cs) ->
+  Forall (fun c' => nmetrics c' = n) (c :: cs) ->
   Forall (fun c' => has_date c' = false) (c :: cs) ->
   record_ok (field_names c) = true ->
   Forall (Forall (fun z => in_i64 z = true)) (int_rows (c :: cs)) ->
@@ -107,7 +107,7 @@ Hypothesis inflate_deflate : forall p, inflate (deflate p) = Some p.
    same integer table; the chunks read back hold [bucket] samples each (the last
    one the remainder) *)
 Theorem C18_roundtrip_reread : forall c cs n bucket nows,
-  n <> O -> Forall (fun c' => nmetrics c' = n) (c :: cs) ->
+  Forall (fun c' => nmetrics c' = n) (c :: cs) ->
   Forall (fun c' => has_date c' = false) (c :: cs) ->
   record_ok (field_names c) = true ->
   Forall (Forall (fun z => in_i64 z = true)) (int_rows (c :: cs)) ->
@@ -139,8 +139,30 @@ Example C18_example :
   Forall (fun d => small (enc_doc d)) (table_docs (field_names ex_cA) (int_rows [ex_cA; ex_cB])) /\
   int_rows [ex_cA; ex_cB] = [[1; 2 ^ 63 - 1]; [-2; - 2 ^ 63]; [1; 0]]%Z /\
   firstn 14 (fst (write_csv [ex_cA; ex_cB])) = [34; 97; 44; 98; 34; 44; 34; 113; 34; 34; 10; 34; 10; 49]%N /\
-  nmetrics ex_cC <> 2%nat /\ Forall (fun c => nmetrics c <> O) [ex_cA; ex_cB; ex_cC; ex_cA] /\
+  nmetrics ex_cC <> 2%nat /\
   snd (write_csv [ex_cA; ex_cB; ex_cC; ex_cA]) = true /\
   group_by_count [ex_cA; ex_cB; ex_cC; ex_cA] = [[ex_cA; ex_cB]; [ex_cC]; [ex_cA]] /\
-  length (dump_csv [ex_cA; ex_cB; ex_cC; ex_cA]) = 3%nat.
+  length (dump_csv [ex_cA; ex_cB; ex_cC; ex_cA]) = 3%nat /\
+  write_csv [ex_cZ; ex_cA] = ([10; 10; 10]%N, true) /\ length (dump_csv [ex_cZ; ex_cA]) = 2%nat.
 Proof. exact csv_example. Qed.
+
+(* the known findings C18-lone-empty-key and C18-key-crlf (behaviour of Go's
+   encoding/csv underneath csv.go) as theorems about the faithful model: outside
+   the class [record_ok] the round trip does fail.  A single metric with the empty
+   key: the header is an empty line, the first row is taken for the header.  A key
+   containing CR LF comes back with LF only. *)
+Theorem C18_lone_empty_key_refuted :
+  record_ok (field_names ex_cE) = false /\
+  write_csv [ex_cE] = ([10; 53; 10; 54; 10]%N, false) /\
+  cv_docs (fst (write_csv [ex_cE])) = ([[([53]%N, VInt64 6)]], CvOk) /\
+  cv_docs (fst (write_csv [ex_cE])) <> (table_docs (field_names ex_cE) (int_rows [ex_cE]), CvOk).
+Proof. exact lone_empty_key_refuted. Qed.
+Print Assumptions C18_lone_empty_key_refuted.
+
+Theorem C18_key_crlf_refuted :
+  record_ok (field_names ex_cR) = false /\
+  fst (write_csv [ex_cR]) = [34; 97; 13; 10; 98; 34; 10; 49; 10; 50; 10]%N /\
+  cv_docs (fst (write_csv [ex_cR])) = ([[([97; 10; 98]%N, VInt64 1)]; [([97; 10; 98]%N, VInt64 2)]], CvOk) /\
+  cv_docs (fst (write_csv [ex_cR])) <> (table_docs (field_names ex_cR) (int_rows [ex_cR]), CvOk).
+Proof. exact key_crlf_refuted. Qed.
+Print Assumptions C18_key_crlf_refuted.
